@@ -158,3 +158,37 @@ Definition obs_okb (sp : obs (option N)) (im : obs N) : bool :=
   | Some s, Some b => matches_b s b
   | _, _ => false
   end.
+
+(* ---------- the flush-free reading of a history ----------
+   Everything a history writes, as ONE string: Malloc appends undetermined positions and
+   remembers the window, WriteBinary appends the payload, a caller store patches its window;
+   Flush and WrittenLen do nothing.  Windows are numbered as in [OFill] (k-th successful
+   Malloc) and never expire here; the theorems relate this reading to [log_run] for histories
+   in which no call fails (no sink error, no store outside a live region). *)
+Record sst : Type := mksst { sS : sbytes; sW : list (N * N) }.   (* windows newest first *)
+
+Definition stream_step (t : sst) (o : wop) : sst :=
+  match o with
+  | OMalloc n =>
+    if (n <? 0)%Z then t
+    else mksst (sS t ++ repeat None (N.to_nat (Z.to_N n))) ((len (sS t), Z.to_N n) :: sW t)
+  | OWrite bs => mksst (sS t ++ map Some bs) (sW t)
+  | OFill k off data =>
+    match nth_error (rev (sW t)) k with
+    | Some (a, n) =>
+      if off + len data <=? n then mksst (psplice (sS t) (a + off) (map Some data)) (sW t) else t
+    | None => t
+    end
+  | OFlush => t
+  | OLen => t
+  end.
+
+Definition stream_run (t : sst) (h : list wop) : sst := fold_left stream_step h t.
+
+Definition written (h : list wop) : sbytes := sS (stream_run (mksst [] []) h).
+
+(* no call of the history failed: errors are nil or "negative count" (which changes nothing) *)
+Definition clean {X} (os : list (obs X)) : Prop :=
+  Forall (fun ob => o_err ob = E_NONE \/ o_err ob = E_NEG) os.
+
+Definition is_flush (o : wop) : bool := match o with OFlush => true | _ => false end.
